@@ -2,6 +2,7 @@
 package gen2
 
 import (
+	"math"
 	"crypto/sha256"
 	"encoding/hex"
 	"fmt"
@@ -210,6 +211,18 @@ func Run(run *ev.Run) {
 			for i := 0; i < perType; i++ {
 				a := g.Value(t, 0)
 				checkPool(run, set, full, t, a, isCK, rng)
+				// the same value with its maps grown beyond 16 entries (hashing a large map takes another path than a small one)
+				if c := model.Clone(a); i%8 == 1 && growMaps(c, 17+rng.Intn(30)) {
+					run.Count("values_with_large_maps", 1)
+					checkPool(run, set, full, t, c, isCK, rng)
+				}
+				// the same value with NaNs of two different bit patterns in every float position: whether such values are
+				// Equal is not claimed, but if they are their hashes must agree
+				if x, y := model.Clone(a), model.Clone(a); i%8 == 2 && setFloats(x, math.NaN()) > 0 {
+					setFloats(y, math.Float64frombits(0xFFF8000000000000))
+					run.Count("values_with_nan_pairs", 1)
+					checkNaNPair(run, set, full, x, y)
+				}
 				// the same value with map keys whose 32-bit hashes collide (keys are unique, their hashes are not)
 				if c := model.Clone(a); i%4 == 0 && injectCollidingKeys(c, rng) {
 					run.Count("values_with_colliding_map_keys", 1)
@@ -238,7 +251,115 @@ func Run(run *ev.Run) {
 	}
 	run.Require("pairs_checked", 5000)
 	run.Require("values_with_colliding_map_keys", 20)
+	run.Require("values_with_large_maps", 10)
+	run.Require("values_with_nan_pairs", 10)
 	run.Require("cross_process_digests", 2)
+}
+
+// growMaps duplicates the first entry of every non-empty map of v under fresh keys until the map has n entries.
+func growMaps(v *model.Value, n int) bool {
+	if v == nil {
+		return false
+	}
+	done := false
+	switch v.Kind {
+	case model.KMap:
+		keys := make([]string, 0, len(v.Entries))
+		for k := range v.Entries {
+			keys = append(keys, k)
+		}
+		sort.Strings(keys)
+		for _, k := range keys {
+			if growMaps(v.Entries[k], n) {
+				done = true
+			}
+		}
+		if len(keys) > 0 {
+			for i := 0; len(v.Entries) < n; i++ {
+				v.Entries[fmt.Sprintf("grown-%03d", i)] = model.Clone(v.Entries[keys[i%len(keys)]])
+			}
+			done = true
+		}
+	case model.KArray:
+		for _, e := range v.Elems {
+			if growMaps(e, n) {
+				done = true
+			}
+		}
+	case model.KRecord:
+		for _, k := range sortedFieldNames(v) {
+			if growMaps(v.Fields[k], n) {
+				done = true
+			}
+		}
+	case model.KUnion:
+		done = growMaps(v.Member, n)
+	}
+	return done
+}
+
+func sortedFieldNames(v *model.Value) []string {
+	names := make([]string, 0, len(v.Fields))
+	for k := range v.Fields {
+		names = append(names, k)
+	}
+	sort.Strings(names)
+	return names
+}
+
+// setFloats overwrites every float / double of v (map keys aside) and returns how many there were.
+func setFloats(v *model.Value, f float64) int {
+	if v == nil {
+		return 0
+	}
+	n := 0
+	switch v.Kind {
+	case model.KFloat32, model.KFloat64:
+		v.F = f
+		return 1
+	case model.KMap:
+		for _, e := range v.Entries {
+			n += setFloats(e, f)
+		}
+	case model.KArray:
+		for _, e := range v.Elems {
+			n += setFloats(e, f)
+		}
+	case model.KRecord:
+		for _, e := range v.Fields {
+			n += setFloats(e, f)
+		}
+	case model.KUnion:
+		n += setFloats(v.Member, f)
+	}
+	return n
+}
+
+// checkNaNPair: x and y differ only in the bit pattern of their NaNs.
+func checkNaNPair(run *ev.Run, set *bridge.Set, full string, x, y *model.Value) {
+	px, err1 := codec.BuildGo(set, full, x)
+	py, err2 := codec.BuildGo(set, full, y)
+	if err1 != nil || err2 != nil {
+		run.Inconclusive(fmt.Sprint("bridge build: ", err1, err2))
+		return
+	}
+	run.Eval(1)
+	for _, pr := range [][2]reflect.Value{{px, py}, {py, px}} {
+		e, err := callBool(pr[0], "Equals", pr[1])
+		if err != nil {
+			run.Violation(GENERATION+"/equals/"+errKind(err), map[string]any{"type": full, "error": err.Error(), "left": trunc(model.Show(x)), "right": trunc(model.Show(y))})
+			return
+		}
+		run.Count("pairs_checked", 1)
+		h0, _ := callHash(pr[0], "ComputeHash")
+		h1, _ := callHash(pr[1], "ComputeHash")
+		if e && h0 != h1 {
+			run.Violation(GENERATION+"/hash/equal-values-different-hashes/nan-bit-patterns", map[string]any{"generation": GENERATION, "set": set.Name, "type": full,
+				"left_value": trunc(model.Show(x)), "right_value": trunc(model.Show(y)), "left_hash": h0, "right_hash": h1, "detail": "the two values differ only in the bit pattern of their NaNs and compare Equal"})
+			return
+		}
+	}
+	run.Distinct(full + "|nan-bit-patterns")
 }
 
 func checkPool(run *ev.Run, set *bridge.Set, full string, t corpus.TypeExpr, a *model.Value, isCK bool, rng *rand.Rand) {
